@@ -163,6 +163,52 @@ func c13LongRun(c *mon.Ctx, r *rand.Rand) {
 	c.Count("long_runs")
 }
 
+// c13ManySubjects: one evaluator sees hundreds of DISTINCT data (more than any
+// small cache holds: 64, 128, 256, 1024), then the earlier ones again in
+// another order; every answer must be the one a fresh evaluator gives.
+func c13ManySubjects(c *mon.Ctx, r *rand.Rand) {
+	n := []int{70, 130, 260, 1030}[r.Intn(4)]
+	exprs := []string{`s matches "^p1"`, `s not matches "7$"`, `s == p17 or s == "p3"`, `s in l`, `l contains s`, `any l as x { x == s }`, `n == 17 or n == 3`, `s matches "1" and s matches "^p[0-9]+$"`, `m.k matches "^p2"`, `s is not empty and s != p5`}
+	text := exprs[r.Intn(len(exprs))]
+	used, err, pan, _ := createEval(text)
+	if pan != "" || err != nil {
+		return
+	}
+	mk := func(i int) interface{} {
+		return map[string]interface{}{"s": fmt.Sprintf("p%d", i), "n": i, "l": []interface{}{fmt.Sprintf("p%d", i%3), "p17"}, "m": map[string]interface{}{"k": fmt.Sprintf("p%d", i/2)}}
+	}
+	want := make([]string, n)
+	for i := 0; i < n; i++ {
+		fresh, _, _, _ := createEval(text)
+		want[i] = evaluate(fresh, mk(i)).Class()
+	}
+	check := func(i int, phase string) bool {
+		if got := evaluate(used, mk(i)).Class(); got != want[i] {
+			c.Violation(fmt.Sprintf("C13 history-dependent many-subjects used=%s fresh=%s", got, want[i]), "after seeing many distinct data a used evaluator answers differently from a fresh one",
+				map[string]any{"expression": text, "distinct_data": n, "phase": phase, "datum_index": i})
+			return false
+		}
+		return true
+	}
+	for i := 0; i < n; i++ {
+		if !check(i, "first pass") {
+			return
+		}
+	}
+	for _, i := range r.Perm(n) {
+		if !check(i, "second pass, permuted") {
+			return
+		}
+	}
+	for i := n - 1; i >= 0; i-- {
+		if !check(i, "third pass, reversed") {
+			return
+		}
+	}
+	c.Evals(3 * n)
+	c.Count("many_subject_runs")
+}
+
 // c13InPlace: the caller changes a long-lived datum in place between calls
 // (same map / slice object, same length, different contents); the evaluator
 // must see the datum as it is now.
@@ -227,6 +273,9 @@ func c13Run(c *mon.Ctx, idx int) {
 	}
 	if idx%800 == 3 {
 		c13LongRun(c, r)
+	}
+	if idx%50 == 7 {
+		c13ManySubjects(c, r)
 	}
 	doc := univ.GenObj(r, 3, true)
 	seed := r.Int63()
@@ -420,8 +469,75 @@ var c14Bodies = []string{
 	`not (V == 1)`, `K matches "^[a-e]" or V == 1`, `V == 1 or any owners as o { o == "ops" }`, `(any owners as o { o == "ops" }) and V == 1`, `V == 1 or name == "n"`, `K == "KEY" or zz == 1`, `V in owners or V == 2`,
 }
 
+// c14Large: Execute over maps large enough (hundreds of entries, > 128 / 256
+// distinct subjects, recurring subjects with opposite outcomes) and over
+// entries that share storage (sub-slices of one backing array, one pointer
+// under several keys) that anything remembered between elements - per
+// address, per subject, per printed form - shows up as a dependence on the
+// visiting order.
+type c14Rec struct{ Tags []string }
+
+func c14Large(c *mon.Ctx, r *rand.Rand) {
+	type scen struct {
+		name  string
+		ftext string
+		in    interface{}
+	}
+	nd := []int{130, 150, 257, 300}[r.Intn(4)]
+	big := map[string]interface{}{}
+	for i := 0; i < 2*nd+37; i++ {
+		big[fmt.Sprintf("e%04d", i)] = map[string]interface{}{"name": fmt.Sprintf("n%d", i%nd), "n": i % nd, "tags": []interface{}{fmt.Sprintf("t%d", i%7)}}
+	}
+	typed := map[int]c14Rec{}
+	for i := 0; i < 2*nd; i++ {
+		typed[i] = c14Rec{Tags: []string{fmt.Sprintf("n%d", i%nd)}}
+	}
+	x := []int{1, 2, 3, 4}
+	shared := map[string][]int{"a": x[:3], "b": x[:1], "c": x[:2], "d": x[1:], "e": x[:4], "f": x[:0]}
+	p := &c14Rec{Tags: []string{"x"}}
+	q := &c14Rec{Tags: []string{"y"}}
+	ptrs := map[string]*c14Rec{"a": p, "b": q, "c": p, "d": nil, "e": q}
+	scens := []scen{
+		{"recurring-subjects", `name matches "^n1"`, big}, {"recurring-subjects", `name not matches "1$"`, big}, {"recurring-subjects", `name == n7 or name == "n77"`, big},
+		{"recurring-subjects", `n == 5 or "t3" in tags`, big}, {"recurring-subjects", `any tags as t { t matches "^t[0-3]$" } and name matches "[05]$"`, big},
+		{"recurring-subjects-typed", `any Tags as t { t matches "^n1" }`, typed}, {"recurring-subjects-typed", `"n5" in Tags`, typed},
+		{"shared-backing-array", `"/2" == 3`, shared}, {"shared-backing-array", `"/0" == 1`, shared}, {"shared-backing-array", `"/1" == 2 or "/0" == 2`, shared},
+		{"one-pointer-under-several-keys", `"x" in Tags`, ptrs}, {"one-pointer-under-several-keys", `Tags is not empty`, ptrs},
+	}
+	sc := scens[r.Intn(len(scens))]
+	f, _ := bexpr.CreateFilter(sc.ftext)
+	if f == nil {
+		return
+	}
+	outcomes := map[string]int{}
+	for i := 0; i < 24; i++ {
+		use := f
+		if i%3 == 2 {
+			use, _ = bexpr.CreateFilter(sc.ftext)
+		}
+		xo := execute(use, sc.in)
+		c.Evals(1)
+		k := "error"
+		if xo.panic != "" {
+			k = "panic"
+		} else if xo.err == nil {
+			k = keptPositions(reflect.ValueOf(sc.in), reflect.ValueOf(xo.out))
+		}
+		outcomes[fmt.Sprintf("%x", mon.Hash64(k))+"/"+clip(k, 40)]++
+	}
+	if len(outcomes) > 1 {
+		c.Violation("C14 filter-nondeterministic "+sc.name, "repeating Filter.Execute over the same map gave different outcomes", map[string]any{"scenario": sc.name, "expression": sc.ftext, "entries": reflect.ValueOf(sc.in).Len(), "outcome_counts": outcomes})
+	}
+	c.Count("large_or_aliased_map_scenarios")
+	c.Count("large_or_aliased:" + sc.name)
+}
+
 func c14Run(c *mon.Ctx, idx int) {
 	r := c.RNG(idx)
+	if idx%9 == 7 && idx%2 == 1 {
+		c14Large(c, r)
+		return
+	}
 	var datum *univ.Node
 	var text string
 	var e xgen.Expr
@@ -615,7 +731,7 @@ func init() {
 		NumCases:    func(tier string) int { return tierN(tier, 4000, 150000) },
 		Run:         c13Run,
 		Required: func(tier string) []string {
-			return []string{"histories", "in_place_update_histories", "long_runs", "same_root_type_histories", "evaluate_calls", "execute_calls", "calls_after_an_error_follow", "call_outcome:T", "call_outcome:F", "call_outcome:E", "history_len:0", "history_len:2", "history_len:3"}
+			return []string{"histories", "in_place_update_histories", "long_runs", "many_subject_runs", "same_root_type_histories", "evaluate_calls", "execute_calls", "calls_after_an_error_follow", "call_outcome:T", "call_outcome:F", "call_outcome:E", "history_len:0", "history_len:2", "history_len:3"}
 		},
 	})
 	mon.Register(&mon.Prop{
@@ -625,7 +741,7 @@ func init() {
 		NumCases:    func(tier string) int { return tierN(tier, 2400, 40000) },
 		Run:         c14Run,
 		Required: func(tier string) []string {
-			return []string{"order_sensitive_cases", "interface_keyed_map_cases", "filter_repetitions", "go_map_order_probes", "directed_mode:0", "directed_mode:1", "directed_mode:2", "directed_mode:3", "outcome:T", "outcome:F", "outcome:E"}
+			return []string{"order_sensitive_cases", "interface_keyed_map_cases", "large_or_aliased_map_scenarios", "filter_repetitions", "go_map_order_probes", "directed_mode:0", "directed_mode:1", "directed_mode:2", "directed_mode:3", "outcome:T", "outcome:F", "outcome:E"}
 		},
 	})
 }
